@@ -90,3 +90,23 @@ Theorem C02_changed_call_fails : forall s0 h1 h2 e2 a hd test text text' c,
     s_fs (fst (run t0 h')) = s_fs s1.
 Proof. exact changed_call_fails_all. Qed.
 Print Assumptions C02_changed_call_fails.
+
+(* non-vacuity: every theorem of this file that has hypotheses has a concrete, non-trivial instance meeting ALL of them
+   (lemmas <Theorem>_witness / <Theorem>_applied in Proofs/WitnessesP.v); a representative one is restated here *)
+From Snaps Require Import Proofs.WitnessesP.
+Example C02_witnesses :
+  (is_standalone AYaml = false /\
+   lookup_slot (s_fs w02_s) (multi_path w02_s w02_c0 w02_testA) (multi_id w02_s w02_c0 w02_testA)
+     = Some (snap_of AYaml w01_v_yaml, w02_line) /\
+   w01_v_yaml <> w02_v1 /\ (AYaml <> AJson -> no_token_line w01_v_yaml /\ no_token_line w02_v1) /\
+   should_update (s_env w02_s) (c_update w02_c0) = false) /\
+  (w01_mo = OMatch AYaml w02_hd w02_testA (POk w01_mv) /\ w02_mo' = OMatch AYaml w02_hd w02_testA (POk w02_v1) /\
+   fresh w01_ms0 /\ Forall mixed_op_ok w01_mh /\ Forall has_value w01_mh /\
+   wf_on (fun p => In p (map fpath (mfacts w01_ms0 w01_mh))) (s_fs w01_ms0) /\
+   disjoint_paths (mfacts w01_ms0 w01_mh) (sfacts w01_ms0 w01_mh) /\
+   Forall rec_ok (snd (run w01_ms0 w01_mh)) /\
+   nth_error (s_cfgs (fst (run w01_ms0 w01_mh1))) w02_hd = Some w02_c1 /\
+   stored_of AYaml w02_v1 <> stored_of AYaml w01_mv /\
+   should_update w01_env_ci (c_update w02_c1) = false /\
+   map o_outcome (snd (run (replay_start (fst (run w01_ms0 w01_mh)) w01_env_ci) w02_mh')) = w02_replay_outcomes).
+Proof. exact C02_witnesses_all. Qed.
